@@ -76,9 +76,8 @@ class C07Monitor(jobsim.Monitor):
         K11 = K[dof1, :][:, dof1]
         # K10 (ext0 - u0) from the prescribed increments laid out as a full vector (every
         # prescribed unknown counts once, however often the boundaries select it)
-        dxp = np.zeros(K.shape[0])
-        dxp[dof0] = want
-        b = it["b"][dof1] - K[dof1, :] @ dxp
+        u0d, first = np.unique(dof0, return_index=True)
+        b = it["b"][dof1] - K[dof1, :][:, u0d] @ want[first]
         ok, rel = close_exact_twin(lin["A"].toarray(), K11.toarray())
         if not ok:
             self.V("reduced-system", f"matrix handed to the linear solver is not K11 (rel {rel:.2e})", site="solve.A")
